@@ -34,6 +34,44 @@ fn p_slot_vtable_entry() {
     kani::cover!(ok, "ok");
     kani::cover!(!ok && which == 2, "io err");
 }
+#[kani::proof]
+#[kani::unwind(70)]
+fn p_slot_wrapped_payload() {
+    // the success payload is a wrapped associated value (an object): same slot rule
+    let mut calls = 0u32;
+    let imp = any_imp(&mut calls);
+    let (ok, val, code) = (imp.ok, imp.val, imp.code);
+    let a: u64 = kani::any();
+    // (the entry ties the payload's lifetime to the container borrow; ManuallyDrop keeps the
+    // borrow checker from requiring the object to outlive the slot's type)
+    let obj = core::mem::ManuallyDrop::new(trait_obj!(imp as WithChild));
+    {
+    fn unbound<'a, T>(t: &T) -> &'a T { unsafe { &*(t as *const T) } }
+    let o = unbound(&*obj);
+    let vt = o.get_vtbl();
+    let cont = o.ccont_ref();
+    let mut slot = MaybeUninit::uninit();
+    let n = core::mem::size_of_val(&slot);
+    assert!(n <= 64);
+    unsafe { core::ptr::write_bytes(&mut slot as *mut _ as *mut u8, 0xA5, n) };
+    let rc: i32 = unsafe { (vt.make())(cont, a, &mut slot) };
+    assert!((rc == 0) == ok, "C13 the entry returns 0 exactly for Ok (wrapped payload)");
+    if ok {
+        let child = unsafe { slot.assume_init() };
+        assert!(child.kid() == val ^ a, "C13 on Ok the wrapped success value is in the caller's slot");
+        drop(child);
+    } else {
+        assert!(rc == code, "C13 on Err the code is the error's non-zero code (wrapped payload)");
+        let p = &slot as *const _ as *const u8;
+        let mut i = 0;
+        while i < n { assert!(unsafe { *p.add(i) } == 0xA5, "C13 on Err the slot is left untouched (wrapped payload: every byte)"); i += 1; }
+    }
+    }
+    assert!(calls == 1);
+    drop(core::mem::ManuallyDrop::into_inner(obj));
+    kani::cover!(ok, "ok");
+    kani::cover!(!ok, "err");
+}
 //@ prefix=canary kind=canary clause=vacuity canary
 #[kani::proof]
 fn canary_c13s() {
